@@ -50,14 +50,14 @@ BOUNDED = {
     'codec_model': {'test': 'replays/suite/vx_codec_model.rs', 'props': ['C12', 'C11'],
                     'bound': 'TTL edge values in both spellings and inside a stored frame; 270 ReadOptions combinations through to_query_string / '
                              'from_query; fixed lists of malformed TTLs and options'},
-    'content_model': {'test': 'replays/suite/vx_content_model.rs', 'props': ['C10', 'C13'],
+    'content_model': {'test': 'replays/suite/vx_content_model.rs', 'props': ['C10', 'C13', 'C04'],
                       'bound': 'HTTP bodies of 9 sizes (0 .. 100000 bytes) in 1-4 pieces through POST /{topic} and POST /cas; nu .append of byte streams '
                                'in 1, 3, 40 pieces; 18 malformed requests'},
-    'api_model': {'test': 'replays/suite/vx_api_model.rs', 'props': ['C06', 'C13'],
+    'api_model': {'test': 'replays/suite/vx_api_model.rs', 'props': ['C06', 'C13', 'C20'],
                   'bound': 'head-follow over the real HTTP front end in a context with and without an existing head, same topic appended in three '
                            'contexts; 14 topic names that start like a reserved path (cas / head / import / version) posted with a body, with and '
                            'without ?context=, then read back through GET /head'},
-    'restart_model': {'test': 'replays/suite/vx_restart_model.rs', 'props': ['C17', 'C16', 'C14'],
+    'restart_model': {'test': 'replays/suite/vx_restart_model.rs', 'props': ['C17', 'C16', 'C14', 'C19'],
                       'bound': 'one history on the real serve loops (handlers: plain / replaced while running / unregistered / dotted name; generators: one '
                                'running, one failed spawn; commands: one defined twice, one call), the store directory copied, the serve loops started '
                                'again on the copy; one context'},
